@@ -117,6 +117,8 @@ def gen_block(rng, places, bitplaces, wplaces, depth, nest):
                              nest - 1)
             els = gen_block(rng, places, bitplaces, wplaces, depth - 1,
                             nest - 1) if rng.random() < 0.5 else None
+            if els is not None and rng.random() < 0.2:
+                els = []          # `with Else: pass`
             stmts.append(["if", c, body, els])
     return stmts
 
